@@ -249,7 +249,9 @@ def perturb(b, rng):
 
 
 RTCP_TARGETS = [["nackresp"], ["rrecv"], ["rtpfb"], ["stats"], ["pdrecv"], ["cc"], ["ccleaky"], ["nackgen"], ["pli"]]
-RTP_TARGETS = [["nackgen"], ["rrecv"], ["twccsend"], ["rfc8888"], ["stats"], ["pdrecv"], ["jitter"]]
+RTP_TARGETS = [["nackgen"], ["rrecv"], ["twccsend"], ["rfc8888"], ["stats"], ["pdrecv"], ["jitter"],
+               # members that only log a parse error, followed by members that trust the cached header
+               ["stats", "pdrecv"], ["stats", "nackgen"], ["stats", "rrecv"], ["stats", "twccsend"], ["stats", "rfc8888"], ["stats", "jitter"]]
 OUT_TARGETS = [["nackresp"], ["rsend"], ["twcchdr"], ["rtpfb"], ["stats"], ["pdsend"], ["flexfec"], ["cc"], ["ccleaky"], ["pacing"]]
 ALL_CHAIN = ["nackgen", "nackresp", "rrecv", "rsend", "twccsend", "twcchdr", "rfc8888", "rtpfb", "stats", "pdrecv", "pdsend", "pli", "flexfec", "cc"]
 
@@ -283,6 +285,17 @@ def script_in(rng, kinds, raws, which):
             if "jitter" not in kinds:
                 steps.append({"a": "rrtp", "s": 2, "w": seq, "id": i, "len": 12, "shape": 0, "tw": seq, "fail": False})
     steps += [{"a": "wait", "ms": 3}, {"a": "close"}]
+    return {"members": members, "steps": steps, "watch": 3000, "settle": 5}
+
+
+def script_flood(rng, kinds, n):
+    """Untrusted SSRCs: n well-formed packets with n distinct SSRCs on one remote stream, then time for the tickers."""
+    members, steps = prefix(rng, kinds, 7)
+    for i in range(n):
+        raw = [0x80, 96] + u16(i) + u32(1000 + i) + u32(0x10000 + i * 7) + [i & 255] * 10
+        steps.append({"a": "rrtp", "s": 2, "raw": raw, "id": i, "fail": False})
+    steps += [{"a": "wait", "ms": 30}, {"a": "rrtp", "s": 2, "w": 9000, "id": 1, "len": 12, "shape": 0, "tw": 9000, "fail": False},
+              {"a": "wait", "ms": 10}, {"a": "close"}]
     return {"members": members, "steps": steps, "watch": 3000, "settle": 5}
 
 
@@ -341,6 +354,8 @@ def run(ctx):
         distinct += len({tuple(b) for b in pool})
     for kinds in OUT_TARGETS + [ALL_CHAIN]:
         scripts.append(script_out(rng, kinds))
+    for kinds in [["rfc8888"], ["rrecv"], ["nackgen"], ["stats"], ["twccsend"], ALL_CHAIN]:
+        scripts.append(script_flood(rng, kinds, 400 if ctx.quick else 3000))
     rng.shuffle(scripts)
     for i, ch in enumerate(chunks(scripts, 150)):
         run_batch(ctx, ch, "G-shapes-%d" % i)
